@@ -210,12 +210,13 @@ PROPS["C05"] = dict(
                  "text literals containing line breaks are outside the line protocol and not generated"],
 )
 PROPS["C15"] = dict(
+    env=dict(thorough=dict(BW_CASE_TIMEOUT_S=240)),  # deep cases enumerate several thousand damaged images each
     level="fault_enumeration",
     instrument=ENGINE_FILES,
     budget=dict(quick=30, thorough=900),
     rule="a generated graph of 1-5 triples is exported to the simulated disk; then EVERY truncation point (torn write) and EVERY lost-head offset of the image (images up to 400 bytes, sampled beyond), every single-line duplication, drop and separator loss, 60 "
          "sampled bit flips, 40 transposed and 25 zeroed extents, over-long runs (>= 64 KiB) without separator, 40 injected escape sequences, 25 reader failures at byte k and 80 sampled PAIRS of "
-         "damages are applied, one damaged image per execution. Each damaged image is read with io.ReadIntoGraph through the adversarial "
+         "damages are applied, one damaged image per execution (thorough tier, images up to 220 bytes: additionally EVERY single-bit flip, EVERY reader-failure offset and every lost-head x lost-separator pair). Each damaged image is read with io.ReadIntoGraph through the adversarial "
          "reader into an empty graph, and every line and every tab separated field of it is handed to triple.Parse, node.Parse, predicate.Parse, the literal builder and triple.ParseObject. "
          "Oracle: no panic; never (nil / empty value, nil error); an accepted value prints to text that is accepted again as an equal value; the reader loads exactly the triples of the lines "
          "before the first line the reference line recogniser (written from the docs) rejects and reports that count - a line the reference rejects but the implementation accepts is judged by "
